@@ -592,20 +592,34 @@ func main() {
 	}
 	r := &runner{c: c, units: units, res: make([]result, len(units)), refOut: map[int]string{}, perProg: perProg, t0: time.Now()}
 	r.run(groups)
+	// name-collision units: the conversion is judged, not XGo's member lookup. When the unconverted Go text
+	// compiled as XGo (formatter skipped) already differs from Go, the unit is outside the supported subset.
+	var twins []int
+	for i, u := range units {
+		if strings.HasPrefix(u.Key, twinPrefix) && r.res[i].done && r.res[i].stage != "" {
+			twins = append(twins, i)
+		}
+	}
+	deviates := r.unconvertedDeviates(twins)
 	keys := map[string]bool{}
+	found := map[string]bool{}
 	var dump *os.File
 	if fn := os.Getenv("C25_DUMP"); fn != "" { // debugging aid: every failing unit as a JSON line
 		dump, _ = os.Create(fn)
 		defer dump.Close()
 	}
 	for i, u := range units {
-		c.Eval(1)
-		keys[u.Key] = true
-		c.NontrivialN(1)
 		rs := r.res[i]
 		if !rs.done {
 			c.Fatal("unit %d (%s %s) was never decided", i, u.Key, u.Name)
 		}
+		if deviates[i] { // not a case of the property: counted, not judged
+			c.Hist("excluded_documented_deviation:auto-capitalised-member-lookup", 1)
+			continue
+		}
+		c.Eval(1)
+		keys[u.Key] = true
+		c.NontrivialN(1)
 		src := render(units, []int{i})
 		if rs.packed != "" {
 			src = rs.packed
@@ -628,9 +642,20 @@ func main() {
 				b, _ := json.Marshal(map[string]any{"key": u.Key, "name": u.Name, "stage": rs.stage, "msg": rs.msg, "go": src, "xgo": rs.xgo, "want": r.refOut[i], "got": rs.out})
 				dump.Write(append(b, '\n'))
 			}
+			found[f.Key] = true
 			c.Violate(Case{Key: u.Key, Name: u.Name, Env: u.Env, Src: src}, f)
 		}
 	}
+	// every key of the run (the engine prints the first 25 only), known or not
+	var fk []string
+	for k := range found {
+		fk = append(fk, k)
+	}
+	sort.Strings(fk)
+	for _, k := range fk {
+		fmt.Println("KEY", k)
+	}
+	c.Extra["violation_keys"] = fk
 	c.Extra["programs_built"] = r.nprog + len(groups)
 	c.Extra["files"] = len(groups)
 	c.Extra["classes"] = len(keys)
@@ -643,8 +668,50 @@ func main() {
 		"the Go code generated for a converted file is type-checked with go/types (source importer) before it is built, so that every unit with an error is found at once; a unit is reported as 'generated Go does not build' on the word of go/types for its single-unit file (replay uses go build)",
 		"a unit that passes inside its packed file is not run again alone; a unit that fails inside the packed file is judged on its single-unit file (a difference that exists only in the packed file is reported with the packed file as the case)",
 		"a violation key is the class (rewrite rule + shadowing kind/shape), the stage (does not compile / output differs) is part of the description",
+		"XGo's documented deviations from Go are outside the supported subset: `$` in string literals and field access beside a method of the capitalised name are enumerated, counted and not run; a failing name-collision unit (lowercase-call/collision:*) is excluded and counted when its unconverted Go text, compiled as XGo without the formatter, already does not behave like Go",
 	}
 	c.Finish()
+}
+
+const twinPrefix = "lowercase-call/collision:"
+
+// unconvertedDeviates compiles the ORIGINAL single-unit Go files as XGo (no formatter) and reports the
+// units whose program then does not compile, build, or print what Go prints.
+func (r *runner) unconvertedDeviates(idx []int) map[int]bool {
+	dev := map[int]bool{}
+	if len(idx) == 0 {
+		return dev
+	}
+	s, err := progs.NewScratch()
+	if err != nil {
+		r.c.Fatal("%v", err)
+	}
+	defer s.Remove()
+	var ps []*progs.Prog
+	owner := map[*progs.Prog]int{}
+	for _, i := range idx {
+		gen, err := progs.CompileXGo("main.xgo", render(r.units, []int{i}), nil)
+		if err != nil {
+			dev[i] = true
+			continue
+		}
+		p := &progs.Prog{Name: fmt.Sprintf("t%d", i), GoSrc: gen}
+		owner[p] = i
+		ps = append(ps, p)
+	}
+	if err := s.BuildAll(ps); err != nil {
+		s.Remove()
+		r.c.Fatal("%v", err)
+	}
+	s.RunAll(ps)
+	for _, p := range ps {
+		i := owner[p]
+		if !p.BuildOK || p.Exit != 0 || p.TimedOut || p.Stdout != r.marker(i)+r.refOut[i] {
+			dev[i] = true
+		}
+	}
+	r.nprog += len(ps)
+	return dev
 }
 
 // replay runs one single-unit file through both pipelines.
@@ -682,6 +749,22 @@ func replay(c *engine.Check, k Case) *engine.Failure {
 		case sub.Stdout != ref.Stdout:
 			rs.stage, rs.out = "output-differs", sub.Stdout
 		}
+	}
+	if f := failureOf(u, k.Src, rs, ref.Stdout); f != nil && strings.HasPrefix(k.Key, twinPrefix) {
+		// same rule as the run: the unconverted text compiled as XGo must behave like Go
+		dev := true
+		if g2, err := progs.CompileXGo("main.xgo", k.Src, nil); err == nil {
+			t := &progs.Prog{Name: "twin", GoSrc: g2}
+			if err := s.BuildAll([]*progs.Prog{t}); err == nil && t.BuildOK {
+				s.RunAll([]*progs.Prog{t})
+				dev = t.Exit != 0 || t.TimedOut || t.Stdout != ref.Stdout
+			}
+		}
+		if dev {
+			fmt.Println("EXCLUDED documented deviation (auto-capitalised member lookup): the unconverted Go text compiled as XGo already differs from Go")
+			return nil
+		}
+		return f
 	}
 	return failureOf(u, k.Src, rs, ref.Stdout)
 }
